@@ -657,6 +657,22 @@ def _r5_r6_sta(ck: Checker, prog: Program):
     for nm, v in (("sta_values", sta), ("lta", lta)):
         if not (v.is_Function and v.func.__name__ == "mean" and v.args and v.args[0].has(sp.Abs)):
             ck.violation("C13.R5", fq, nm, f"`{nm}` is not a mean of absolute amplitudes: {v}", loc=f.loc(inner))
+    # the LTA is the mean absolute amplitude of the first npts_in_lta = floor(lta_seconds / dt) samples of the window
+    if lta is not None:
+        gi_, sl_, NONE_ = sp.Function("getitem"), sp.Function("slice"), sp.Symbol("None")
+        NL = [sp.Function("int")(sp.floor(pos["lta_seconds"] / DT)), sp.floor(pos["lta_seconds"] / DT)]
+        ok_lta = False
+        if fn(lta) == "mean" and lta.args and isinstance(lta.args[0], sp.Abs):
+            src_ = lta.args[0].args[0]
+            if getattr(src_, "func", None) == gi_ and getattr(src_.args[1], "func", None) == sl_ and src_.args[1].args[0] == NONE_ and src_.args[1].args[2] == NONE_ \
+                    and any(equal(src_.args[1].args[1], n_) for n_ in NL):
+                base_ = src_.args[0]
+                # the window itself, or its leading part that holds the whole STA blocks
+                ok_lta = base_ == amp or (getattr(base_, "func", None) == gi_ and base_.args[0] == amp and getattr(base_.args[1], "func", None) == sl_ and base_.args[1].args[0] == NONE_)
+        if ok_lta:
+            ck.ok("C13.R6", fq, "LTA = mean |x| over the first floor(lta_seconds/dt) samples of the window", detail=str(lta)[:160])
+        else:
+            ck.violation("C13.R6", fq, "long-term average", f"the long-term average is {lta}, not the mean absolute amplitude of the first floor(lta_seconds/dt) samples of the window", loc=f.loc(decide))
     # the STA blocks tile the window from its first sample: K = floor(n_samples / P) blocks of P samples
     resh = [a for a in sp.preorder_traversal(sta) if getattr(getattr(a, "func", None), "__name__", "") == "reshape"]
     tiled = False
